@@ -9,7 +9,13 @@ CHECK = {'level': 'exploration',
          'undecodable and unknown-procedure request/response envelopes on raw streams, bursts within/exactly at/above the rate limit, handler-issued '
          'ApplyPenalty/BanPeer, blacklisted peers, a peer without listen addresses (dial-only, connected inbound from 127.0.0.1 which it never '
          'announces; outbound attempts towards its IP probed against a closed port), dials in both directions during and after the ban, third parties, legal-only traffic across '
-         'rate-window resets. Non-trivial = (timed gater) an IP crossed the threshold by accumulation, was queried while certainly banned and again '
+         'rate-window resets. One scenario in three (quick tier too) has TWO OR MORE PEERS ON ONE IP ADDRESS (2-4 of 3-4 nodes on the same 127.0.0.x / all three on ::1, '
+         'different ports; also a dial-only peer plus a listening peer on 127.0.0.1, also the penalising node itself on that IP): both connect to a third '
+         'node (either side dials), penalties of one or of both peers take the IP total to the threshold (score accumulates over peer IDs), the peer that '
+         'kept its connection then offends through ApplyPenalty 1-30 / a burst above the rate limit / BanPeer / a bad or unknown-procedure envelope and '
+         'must be disconnected at that penalty (IP total already at/above the threshold), both peers re-dial and are dialled during the ban, ban awaited, '
+         'both reconnect, small penalties of both add up from a clean score; 8 fixed scripts of that shape run in every tier (TestRegressSharedIPPeers). '
+         'Non-trivial = (timed gater) an IP crossed the threshold by accumulation, was queried while certainly banned and again '
          'after the ban was seen over; (untimed gater) crossed by accumulation and queried while banned; (end-to-end) a ban caused by traffic with a '
          'refused dial during the ban and an accepted one after it, or a legal-only scenario that filled a rate window exactly; (concurrent) >= 2 '
          'racing penalties reaching the threshold. Distinct by digest of the concrete operation list',
@@ -24,6 +30,9 @@ CHECK = {'level': 'exploration',
  'assumptions': ['an IPv4-mapped IPv6 address is the same IP as the IPv4 address',
                  'per gate refusal: InterceptAddrDial (outbound), InterceptAccept and InterceptSecured(inbound) must each refuse a banned/blacklisted IP',
                  'the score of an IP is not asserted while it is banned',
+                 'several peers on one IP: the peer whose penalty leaves the IP total at/above the threshold must be disconnected at that penalty '
+                 '(asserted when the stored total is seen to change to >= threshold while that peer was connected); that OTHER peers of the IP keep '
+                 'an already open connection until their own next penalty is the engine\'s behaviour and is recorded, not asserted',
                  '"the limit": messages of one procedure received from one peer (requests and responses) per counter window; all nodes use the same limit',
                  'an end-to-end scenario is reported only if it fails in 3 consecutive attempts without a process stall > 250 ms (else inconclusive)',
                  'a "ban should be over by now" verdict is final only if it persists over 600 further process heartbeats (>= 3 s)'],
